@@ -101,7 +101,7 @@ def gen_value(f, rng, pool, fields=None, small=False):
         n = rng.choice([0, 0, 1, 2, 20, 0xfc, 0xfd, 300] if not small else [0, 1, 3, 25])
         return ("b", bytes(rng.below(256) for _ in range(n)))
     if k == "list":
-        heavy = f["elem"]["k"] in ("struct", "opaque") or small
+        heavy = f["elem"]["k"] in ("struct", "opaque") or small or (f["elem"]["k"] == "bytes" and f["elem"]["n"] >= 20)
         n = rng.choice([0, 0, 1, 2, 3] + ([5] if heavy else [0xfc, 0xfd, 300]))
         return ("l", [gen_value(f["elem"], rng, pool, fields, small=True) for _ in range(n)])
     if k == "listof":
@@ -125,6 +125,10 @@ def gen_value(f, rng, pool, fields=None, small=False):
 
 def enc(f, v, out, sites, label):
     k = f["k"]
+    if f.get("dep"):
+        label = "dep:" + f["dep"]
+    if f.get("tname"):
+        label = "@" + f["tname"] + "@"
     if k == "uint":
         out += le(v[1], f["w"])
     elif k == "sint":
@@ -133,7 +137,10 @@ def enc(f, v, out, sites, label):
         out.append(1 if v[1] else 0)
     elif k == "varint":
         out += varint(v[1])
-    elif k in ("bytes", "opaque"):
+    elif k == "bytes":
+        out += v[1]
+    elif k == "opaque":
+        sites.append((len(out), len(v[1]), label, "opaque:" + f["name"]))
         out += v[1]
     elif k == "varbytes":
         vb = varint(len(v[1]))
@@ -158,7 +165,7 @@ def enc(f, v, out, sites, label):
     elif k == "struct":
         d = dict(v[1])
         for name, ff in f["fields"]:
-            enc(ff, d[name], out, sites, (label + "." if label else "") + name)
+            enc(ff, d[name], out, sites, (label + "." if label and not label.endswith("@") else label) + name)
     else:
         raise ValueError("cannot encode " + k)
 
@@ -204,6 +211,10 @@ class Dec:
         """-> ("ok", value, pos) | ("err",) | ("panic", label)"""
         bs = self.bs
         k = f["k"]
+        if f.get("dep"):
+            label = "dep:" + f["dep"]
+        if f.get("tname"):
+            label = "@" + f["tname"] + "@"
         if k in ("uint", "sint"):
             w = f["w"]
             if pos + w > len(bs):
@@ -298,7 +309,7 @@ class Dec:
         if k == "struct":
             fs = []
             for name, ff in f["fields"]:
-                r = self.run(ff, pos, fs, (label + "." if label else "") + name)
+                r = self.run(ff, pos, fs, (label + "." if label and not label.endswith("@") else label) + name)
                 if r[0] != "ok":
                     return r
                 fs.append((name, r[1]))
@@ -397,7 +408,7 @@ def from_json(j, f):
 
 
 def zl(b):
-    return "[" + "; ".join(str(x) for x in b) + "]"
+    return '(hexb "%s")' % bytes(b).hex()
 
 
 def to_coq(v):
@@ -452,7 +463,7 @@ Local Open Scope string_scope.
 """
 
 
-def coq_eval(workdir, name, casetype, rows, expr, shard=250, timeout=900, deps="real_deps"):
+def coq_eval(workdir, name, casetype, rows, expr, shard=250, timeout=900, deps="real_deps", maxchars=600000):
     """Writes rows (Coq terms of type casetype) into shards `Definition cases : list casetype`, evaluates
     `expr` (a Coq expression over `cases` and `types`) by vm_compute in each, and returns
     (list of (row index, parsed result), list of coq errors)."""
@@ -461,21 +472,30 @@ def coq_eval(workdir, name, casetype, rows, expr, shard=250, timeout=900, deps="
         if fn.startswith(name + "_") and (fn.endswith(".v") or fn.endswith(".vo") or fn.endswith(".glob")):
             os.remove(os.path.join(workdir, fn))
     files = []
-    for si, s0 in enumerate(range(0, len(rows), shard)):
+    groups, cur, cursz = [], [], 0
+    for i, r in enumerate(rows):
+        if cur and (len(cur) >= shard or cursz + len(r) > maxchars):
+            groups.append(cur)
+            cur, cursz = [], 0
+        cur.append(i)
+        cursz += len(r)
+    if cur:
+        groups.append(cur)
+    for si, g in enumerate(groups):
         vf = os.path.join(workdir, "%s_%d.v" % (name, si))
         with open(vf, "w") as fh:
             fh.write(PRELUDE)
             fh.write("Definition types := all_types %s.\n" % deps)
             fh.write("Definition cases : list (%s) := [\n" % casetype)
-            fh.write(";\n".join(rows[s0:s0 + shard]))
+            fh.write(";\n".join(rows[i] for i in g))
             fh.write("\n].\nDefinition R := Eval vm_compute in (%s).\nPrint R.\n" % expr)
-        files.append((s0, vf))
+        files.append((g[0], vf))
     out, errors = [], []
     running, pending = [], list(files)
     while pending or running:
         while pending and len(running) < 8:
             s0, vf = pending.pop(0)
-            p = subprocess.Popen(["timeout", str(timeout), "coqc"] + vlib.coq_flags() + [vf], cwd=workdir,
+            p = subprocess.Popen(["timeout", str(timeout), "coqc", "-noglob"] + vlib.coq_flags() + [vf], cwd=workdir,
                                  stdout=subprocess.PIPE, stderr=subprocess.PIPE, text=True)
             running.append((p, s0, vf))
         p, s0, vf = running.pop(0)
